@@ -226,8 +226,46 @@ pub fn h264_frame(r: &mut Rng, kind: FrameKind, body_len: usize, decorate: bool)
             }
         }
     }
+    extra_units(r, &mut nals, false, decorate);
     odd_layouts(r, &mut nals, kind, decorate, 0x0c);
     join_nals(r, &nals, decorate)
+}
+
+/// Legal NAL units that are neither parameter sets nor the slices the frame kind is about:
+/// SEI, delimiters, end-of-sequence/stream, filler data, SPS extension / subset SPS / prefix
+/// units, data partitions, auxiliary slices and the reserved / unspecified types (H.264 Table
+/// 7-1); for H.265 the non-IRAP slice types, AUD/EOS/EOB/FD/SEI, reserved and unspecified types
+/// with any nuh_layer_id / temporal id (H.265 Table 7-1). None of them is part of the
+/// configuration, none makes a frame a key frame, and all of them are stored like any other unit.
+fn extra_units(r: &mut Rng, nals: &mut Vec<Vec<u8>>, hevc: bool, decorate: bool) {
+    if !decorate || !r.chance(1, 5) {
+        return;
+    }
+    for _ in 0..r.range(1, 3) {
+        let len = match r.below(4) {
+            0 => 0,
+            1 => r.range(1, 3) as usize,
+            _ => r.range(4, 40) as usize,
+        };
+        let mut v = if hevc {
+            let t = *r.pick(&[35u8, 36, 37, 38, 39, 40, 41, 44, 47, 48, 55, 63, 10, 13, 15, 2, 3, 4, 5, 6, 7, 8, 9, 0, 1]);
+            let layer = if t >= 35 && r.chance(1, 3) { r.below(64) as u8 } else { 0 };
+            let tid = if r.chance(1, 2) { 1 } else { r.range(1, 7) as u8 };
+            vec![(t << 1) | (layer >> 5), ((layer & 0x1f) << 3) | tid]
+        } else {
+            let t = *r.pick(&[6u8, 9, 10, 11, 12, 13, 14, 15, 19, 20, 2, 3, 4, 16, 17, 18, 21, 22, 23, 24, 25, 28, 31, 1]);
+            vec![((r.below(4) as u8) << 5) | t]
+        };
+        if !hevc && v[0] & 0x1f == 12 || hevc && (v[0] >> 1) & 0x3f == 38 {
+            // filler data: ff bytes and the stop bit
+            v.extend(std::iter::repeat(0xffu8).take(len));
+            v.push(0x80);
+        } else {
+            v.extend_from_slice(&nal_body(r, len, true));
+        }
+        let at = r.usize_below(nals.len() + 1);
+        nals.insert(at, v);
+    }
 }
 
 /// Layouts no encoder emits but the contract admits ("any number/order/length of parameter-set
@@ -316,6 +354,7 @@ pub fn h265_frame(r: &mut Rng, kind: FrameKind, body_len: usize, decorate: bool)
             nals.push(mk(r, t, body_len));
         }
     }
+    extra_units(r, &mut nals, true, decorate);
     odd_layouts(r, &mut nals, kind, decorate, 0x50);
     join_nals(r, &nals, decorate)
 }
